@@ -30,7 +30,7 @@ def run(ctx):
     res.not_decided = ['the schedules themselves (whether a late answer occurs)', 'equality of verdicts across processes for unpicklable payloads']
     res.assumptions = ['player / extractors / comparator raise ordinary exceptions; a consumer calling .throw() into the generator is outside the property']
     ca = res.clause('C08.a', 'R-TYPESTATE', 'exactly one yield per id on every path of an iteration', floor=1)
-    cb = res.clause('C08.b', 'R-PROV', 'Comparison labelled with the loop id; payload from this iteration only', floor=3)
+    cb = res.clause('C08.b', 'R-PROV', 'Comparison labelled with the loop id; payload from this iteration only', floor=2)
     cc = res.clause('C08.c', 'R-CONTAIN', 'per-recording containment (routine and worker loop)', floor=3)
     cd = res.clause('C08.d', 'R-WHOCALLS', 'both modes reach the same play-and-compare routine', floor=1)
     ce = res.clause('C08.e', 'R-AGREE', 'parent/worker channel correlated', floor=1)
@@ -72,7 +72,7 @@ def run(ctx):
         if isinstance(x, ast.Name) and 'id' in x.id:
             idvar = x.id
     ctors = [n for n in ast.walk(main) if isinstance(n, ast.Call) and isinstance(n.func, ast.Name) and n.func.id == 'Comparison']
-    if len(ctors) < 2:
+    if len(ctors) < 1:
         raise AnalysisError('anchor-lost: %d Comparison constructions' % len(ctors))
     cinit = repo.find_class('Comparison').lookup('__init__')
     pidx = cinit.params.index('recording_id') - 1
